@@ -308,6 +308,12 @@ def run():
         o = Obligation("sub-grouping", "E2 mirsym/z3")
         o.verdict, o.detail = "inconclusive", str(ex)
         rep.add(o)
+    try:
+        command_config_obligation(rep, ctx)
+    except Inconclusive as ex:
+        o = Obligation("get_command_config", "E2 mirsym/z3")
+        o.verdict, o.detail = "inconclusive", str(ex)
+        rep.add(o)
     # -n / --rf-over and the other dedupe options are usable at all: definition and access types of the clap options agree
     from obligations import cli_types
     cli_types.add(rep, ctx, prog, r"^DedupeConfig$")
@@ -339,3 +345,45 @@ def _st(p):
     st.mem = p.mem
     st.pc = list(p.pc)
     return st
+
+
+def command_config_obligation(rep, ctx):
+    """get_command_config (main.rs): the `group` configuration recovered from the report header is resolved against the base directory
+    *recorded in the header* (relative input paths - and with them the isolate roots a dedupe command inherits - mean what they
+    meant when the report was written), not against the directory the dedupe command happens to run in.  E2 with try_parse_from
+    returning a symbolic Group configuration: on the Ok path base_dir is a clone of header.base_dir."""
+    import optsum
+    from mirsym import Agg, EnumV, Lazy, Ref
+    prog = ctx.bin
+    f = prog.find(r"(^|::)get_command_config$")
+    src = prog.src
+    ci = src.field_index("Config", "command")
+    gi = src.variant_index("Command", "Group")
+    if ci is None or gi is None:
+        raise Inconclusive("Config.command / Command::Group not found in the source model")
+
+    def s_parse(e, st, callee, args, dty):
+        cfg = Agg("config::Config", {ci: EnumV("Command", "Group", gi, {0: Agg("config::GroupConfig", {}, base="parsed")})}, base="parsed_cfg")
+        return [(z3.Bool("parse_ok"), EnumV("Result", "Ok", 0, {0: cfg})), (z3.Not(z3.Bool("parse_ok")), EnumV("Result", "Err", 1, {0: Lazy("clap_err", "clap::Error")}))]
+    extra = dict(optsum.SUMMARIES)
+    extra[r"try_parse_from$"] = s_parse
+    eng = oblig.engine(prog, unroll=0, inline=None, extra=extra)
+    ps = eng.run(f, args=[Ref("hdr", (), False)], mem={"hdr": Lazy("header", "ReportHeader")})
+    bi = src.field_index("GroupConfig", "base_dir")
+
+    def prop(p):
+        if not (p.status == "return" and isinstance(p.result, EnumV) and p.result.variant == "Ok"):
+            return None
+        cfg = p.result.fields.get(0)
+        cmd = cfg.fields.get(ci) if isinstance(cfg, Agg) else None
+        gc = cmd.fields.get(0) if isinstance(cmd, EnumV) else None
+        if not isinstance(gc, Agg):
+            return z3.BoolVal(False)
+        st = mirsym.State()
+        st.mem, st.pc = p.mem, list(p.pc)
+        bd = summaries.canon(eng, st, gc.fields.get(bi)) if gc.fields.get(bi) is not None else "<untouched>"
+        foreign = [ev for ev in p.events if ev.kind == "call" and re.search(r"resolve_base_dir$|current_dir$|canonicalize$|set_current_dir$", ev.callee)]
+        return z3.BoolVal(("header" in bd and "base_dir" in bd) and not foreign)
+    o = oblig.check_paths(eng, ps, "get_command_config: the recovered `group` configuration gets the base directory recorded in the report header (not the dedupe command's working directory)",
+                          prop, oblig.fnames(eng), key="header:base-dir-from-header", allow=("return", "panic", "diverge"))
+    rep.add(o)
